@@ -12,12 +12,12 @@ ART = [(r"arithmetic overflow on signed - in end - p", "CBMC pointer-difference 
 def jobs(tier):
     J = []
     fam_q = [("y", 8), ("n", 10), ("q", 10), ("b", 12), ("i", 12), ("u", 12), ("h", 12), ("x", 16), ("t", 16), ("d", 16), ("s", 12), ("o", 12), ("g", 8),
-             ("yu", 12), ("us", 12), ("atu", 16), ("a(yy)y", 16), ("ay", 12), ("an", 12), ("au", 12), ("at", 16), ("(yu)", 12), ("(sy)", 12)]
+             ("yu", 12), ("us", 12), ("atu", 12), ("a(yy)y", 12), ("ay", 12), ("an", 12), ("au", 12), ("at", 16), ("(yu)", 12), ("(sy)", 12)]
     fam_t = [("as", 10), ("ao", 10), ("a{ys}", 10), ("a(yy)", 10), ("aay", 10), ("ah", 12), ("(yh)", 12), ("su", 16)]
     for fam, tiers in ((fam_q, ("quick", "thorough")), (fam_t, ("thorough",))):
         for sig, n in fam:
             J.append(Job(name=f"b.byteswap.{sig}.N{n}", group="C02.b", harness="harness/C02_byteswap.c", defines={"SIG": '"' + sig + '"', "N": n}, real=REAL, env=ENV,
-                         unwind=n + 10, unwindset=["validate_body_helper:4", "ref_value:4", "byteswap_body_helper:4"], timeout=900 if "quick" in tiers else 2400, mem_gb=16,
+                         unwind=n + 10, unwindset=["validate_body_helper:4", "ref_value:4", "byteswap_body_helper:4"], timeout=900 if "quick" in tiers else 2400, mem_gb=16, extra=["--object-bits", "10"] if len(sig) > 2 else [],
                          tiers=tiers, ignore=ART, encodes=["_dbus_marshal_byteswap", "byteswap_body_helper", "_dbus_swap_array", "_dbus_validate_body_with_reason"],
                          assumes=["the body is well-formed in the source byte order according to ref/ref_marshal.h"],
                          bounds=f"signature '{sig}', every well-formed body of 0..{n} bytes, both directions", shape=f"byteswap of {sig}", cost=n))
